@@ -1,7 +1,380 @@
-"""C19 — not implemented yet (fail closed)."""
-from ..model import AnalysisError
+"""C19 Splitting multi-port entries keeps the meaning — which operators may be split, cross product, splice."""
+
+from __future__ import annotations
+
+import ast
+from typing import Dict, List, Optional, Set, Tuple
+
+from ..cfg import Node
+from ..core import Ctx, Report, snippet, where
+from ..model import Class, Func, own_nodes, src
+from ..pathsem import function_paths
+from ..typeinf import classes_of, elem
+from .c08 import forward_shape, op_paths
+from .common import chain, element_placements, loop_body_paths, mentions, order_of, possible_classes
+
 PROPERTY = "C19"
 LEVEL = "other"
-EXPLANATION = "not implemented"
-def run(ctx, rep, tier):
-    raise AnalysisError("rules for C19 are not implemented yet")
+EXPLANATION = (
+    "Decides which operators may be split (only operators whose port set is the union over their operands: splitting one "
+    "entry into several is a disjunction), that the split is a source x destination cross product of copies made inside "
+    "their iteration, each given a one-element operand list, that an entry needing no split is returned as the same "
+    "object, that split entries are spliced where the original stood (every other item placed exactly once, order kept, "
+    "groups descended and re-grouped) and that conversion to NX-OS happens after the split. Does not decide that the "
+    "union of the resulting packet sets equals the original for all operand tuples."
+)
+ASSUMPTIONS = ["Port._items_to_ports is the denotation of a port expression (C08)"]
+
+
+def _split_sites(f: Func) -> List[Tuple[ast.Compare, str, List[str]]]:
+    """`X.<sd>port.operator in [...]` tests in ungroup_ports: (node, 'src'|'dst', operator literals)."""
+    out = []
+    for n in own_nodes(f.node):
+        if isinstance(n, ast.Compare) and len(n.ops) == 1 and isinstance(n.ops[0], (ast.In, ast.Eq)):
+            c = chain(n.left)
+            if c and c[-1] in ("operator", "_operator") and len(c) >= 3:
+                sd = "src" if "src" in c[-2] else "dst" if "dst" in c[-2] else "?"
+                cmp_ = n.comparators[0]
+                lits = []
+                if isinstance(cmp_, (ast.List, ast.Tuple, ast.Set)):
+                    lits = [e.value for e in cmp_.elts if isinstance(e, ast.Constant)]
+                elif isinstance(cmp_, ast.Constant):
+                    lits = [cmp_.value]
+                out.append((n, sd, lits))
+    return out
+
+
+def r19_1(ctx: Ctx, rep: Report) -> None:
+    rep.rule("R19.1")
+    up = ctx.func("Ace.ungroup_ports")
+    fwd = ctx.func("Port._items_to_ports")
+    operators = list(ctx.folder.const("helpers", "OPERATORS"))
+    fpaths = op_paths(ctx, fwd, operators)
+    kind: Dict[str, str] = {}
+    for op in operators:
+        normal = [p for p in fpaths[op] if not p.raises]
+        if normal:
+            kind[op] = forward_shape(ctx, fwd, normal[0], fwd.params[1])["kind"]
+    sites = _split_sites(up)
+    rep.instance(len(sites))
+    rep.floor(2, "operator tests in Ace.ungroup_ports (source and destination)")
+    for node, sd, lits in sites:
+        for op in lits:
+            k = kind.get(op, "?")
+            side = {"src": "source", "dst": "destination"}.get(sd, sd)
+            if k == "IDENT":
+                rep.ok(f"Ace.ungroup_ports: {op!r} splittable ({side} site)", "additive: the port set is the union over the operands", where=where(up, node))
+            elif k == "COMPLEMENT":
+                rep.violation(
+                    "Ace.ungroup_ports",
+                    f'operator literal "{op}" in the splittable set ({side} site)',
+                    f"{op!r} is subtractive (universe minus the operands): several operands mean a conjunction of exclusions, but several entries are a disjunction; "
+                    f"'{op} 3 4' split into '{op} 3' and '{op} 4' matches every port",
+                    where(up, node),
+                    inp=f"permit tcp any any {op} 3 4  ->  {op} 3 + {op} 4 (union = all ports)",
+                )
+            else:
+                rep.violation(
+                    "Ace.ungroup_ports",
+                    f'operator literal "{op}" in the splittable set ({side} site)',
+                    f"{op!r} denotes {k}: its operands are bounds, not alternatives; splitting them changes the meaning",
+                    where(up, node),
+                    inp=f"permit tcp any any {op} 1 3",
+                )
+
+
+def r19_2(ctx: Ctx, rep: Report) -> None:  # noqa: C901
+    rep.rule("R19.2")
+    up = ctx.func("Ace.ungroup_ports")
+    cfg = ctx.cfg(up)
+    loops = [n for n in cfg.live if n.kind == "for"]
+    port_loops = []
+    for lp in loops:
+        c = chain(lp.ast.iter)
+        if c and c[-1] in ("items", "_items") and len(c) >= 3 and "port" in c[-2]:
+            port_loops.append((lp, c))
+    rep.instance(len(port_loops))
+    rep.floor(2, "operand loops (source and destination)")
+    accs: List[str] = []
+    for lp, c in port_loops:
+        sd = "src" if "src" in c[-2] else "dst"
+        var = src(lp.ast.target)
+        owner = c[0]
+        body_nodes = cfg.reachable([s for lab, s in lp.succ if lab == "body"][0], labels_avoid=("exc",)) if [s for lab, s in lp.succ if lab == "body"] else set()
+        body_nodes = {n for n in body_nodes if lp in cfg.reachable(n, labels_avoid=("exc",)) and n is not lp}
+        # the store `<obj>.<sd>port.items = [var]`
+        stores = []
+        for n in body_nodes:
+            if n.kind == "stmt" and isinstance(n.ast, ast.Assign) and isinstance(n.ast.targets[0], ast.Attribute):
+                tc = chain(n.ast.targets[0])
+                if tc and tc[-1] in ("items", "line", "ports") and len(tc) >= 3 and "port" in tc[-2]:
+                    stores.append((n, tc))
+        if not stores:
+            rep.violation("Ace.ungroup_ports", f"for {var} in {'.'.join(c)}", "the loop over the operands does not give each new entry its single operand", where(up, lp.ast))
+            continue
+        sn, tc = stores[0]
+        obj = tc[0]
+        ok_side = ("src" in tc[-2]) == (sd == "src")
+        val = sn.ast.value
+        one = isinstance(val, ast.List) and len(val.elts) == 1 and src(val.elts[0]) == var
+        # freshness: obj is assigned from .copy() inside the same iteration
+        fresh = False
+        copied_from = None
+        for n in body_nodes:
+            if n.kind == "stmt" and isinstance(n.ast, ast.Assign) and isinstance(n.ast.targets[0], ast.Name) and n.ast.targets[0].id == obj:
+                v = n.ast.value
+                if isinstance(v, ast.Call) and isinstance(v.func, ast.Attribute) and v.func.attr == "copy" and cfg.dominates(n, sn):
+                    fresh = True
+                    copied_from = src(v.func.value)
+        if not ok_side:
+            rep.violation("Ace.ungroup_ports", snippet(sn.ast), f"the {sd} operand loop writes the other side's port", where(up, sn.ast))
+        elif not one:
+            rep.violation("Ace.ungroup_ports", snippet(sn.ast), f"each split entry must receive the one-element list [{var}]; this keeps several ports on the entry", where(up, sn.ast), inp="permit tcp any eq 1 2 any -> entries still listing two ports")
+        elif not fresh:
+            rep.violation("Ace.ungroup_ports", f"{obj} mutated in the loop over {'.'.join(c)}", "the entry that receives the operand is not a copy made inside the same iteration: all results alias one object", where(up, sn.ast), inp="permit tcp any eq 1 2 any -> two identical entries 'eq 2'")
+        elif copied_from != owner:
+            rep.violation("Ace.ungroup_ports", f"{obj} = {copied_from}.copy() while iterating {'.'.join(c)}", "the copy is not taken from the entry whose operands are iterated: other fields are lost or mixed", where(up, sn.ast))
+        else:
+            rep.ok(f"Ace.ungroup_ports: for {var} in {'.'.join(c)}", f"{obj} = {copied_from}.copy() per iteration; {snippet(sn.ast, 40)}", where=where(up, lp.ast))
+        # exactly one append of the copy per iteration
+        rep.instance()
+        worst_lo, worst_hi = 99, 0
+        acc = None
+        for path in loop_body_paths(cfg, lp):
+            if path[-1][0] is not lp:
+                continue
+            k = 0
+            for node, lab in path:
+                if node.kind == "stmt" and node.ast is not None:
+                    for kind_, call in element_placements(node.ast, obj):
+                        if kind_ == "append":
+                            k += 1
+                            acc = src(call.func.value)
+            worst_lo, worst_hi = min(worst_lo, k), max(worst_hi, k)
+        if worst_lo == worst_hi == 1:
+            rep.ok(f"Ace.ungroup_ports: {acc}.append({obj})", "exactly once per operand", where=where(up, lp.ast))
+            accs.append(acc or "")
+        else:
+            rep.violation("Ace.ungroup_ports", f"append of {obj}", f"a split entry is appended {worst_lo}..{worst_hi} times per operand (must be exactly once)", where(up, lp.ast))
+    # cross product: the destination stage iterates the accumulator of the source stage
+    rep.instance()
+    dst_stage = [lp for lp, c in port_loops if "dst" in c[-2]]
+    src_stage = [lp for lp, c in port_loops if "src" in c[-2]]
+    if dst_stage and src_stage:
+        d_owner = chain(dst_stage[0].ast.iter)[0]
+        outer = None
+        p = getattr(dst_stage[0].ast, "_parent", None)
+        while p is not None and p is not up.node:
+            if isinstance(p, ast.For):
+                outer = p
+                break
+            p = getattr(p, "_parent", None)
+        src_acc = accs[0] if accs else None
+        if outer is not None and src(outer.target) == d_owner and src(outer.iter) == src_acc:
+            rep.ok("Ace.ungroup_ports: stages", f"destination split runs for every entry of the source stage ({src_acc}): full cross product", where=where(up, outer))
+        elif outer is not None and src(outer.target) == d_owner:
+            rep.violation("Ace.ungroup_ports", f"for {d_owner} in {src(outer.iter)}", "the destination stage does not iterate the result of the source stage: combinations are lost", where(up, outer))
+        else:
+            rep.violation("Ace.ungroup_ports", "destination stage", "source and destination splits are not nested: no cross product", where(up))
+    # pass-through branches append one copy
+    rep.instance()
+    sites = _split_sites(up)
+    ok_pass = 0
+    for node, sd, lits in sites:
+        par = getattr(node, "_parent", None)
+        if isinstance(par, ast.If) and par.orelse:
+            calls = [x for s in par.orelse for x in ast.walk(s) if isinstance(x, ast.Call) and isinstance(x.func, ast.Attribute) and x.func.attr == "append"]
+            if len(calls) == 1 and isinstance(calls[0].args[0], ast.Call) and src(calls[0].args[0].func).endswith(".copy"):
+                ok_pass += 1
+            elif len(calls) == 1:
+                rep.violation("Ace.ungroup_ports", snippet(calls[0]), "an entry whose operator is not split must be passed on as one copy", where(up, calls[0]))
+            else:
+                rep.violation("Ace.ungroup_ports", f"else branch of {snippet(node)}", "an entry whose operator is not split is dropped or duplicated", where(up, node))
+        elif isinstance(par, ast.If):
+            rep.violation("Ace.ungroup_ports", f"no else branch for {snippet(node)}", "entries with other operators are dropped", where(up, node))
+    if ok_pass:
+        rep.ok("Ace.ungroup_ports: pass-through", f"{ok_pass} else branch(es) append exactly one copy", where=where(up))
+
+
+def r19_3(ctx: Ctx, rep: Report) -> None:
+    rep.rule("R19.3")
+    up = ctx.func("Ace.ungroup_ports")
+    rep.instance()
+    ok = False
+    for p in function_paths(ctx.cfg(up)):
+        if p.raises or p.ret is None:
+            continue
+        if isinstance(p.ret, ast.List) and len(p.ret.elts) == 1 and src(p.ret.elts[0]) == "self":
+            for t, truth in p.atoms:
+                if truth and isinstance(t, ast.Compare) and "len(" in src(t) and isinstance(t.ops[0], ast.Eq) and isinstance(t.comparators[0], ast.Constant) and t.comparators[0].value == 1:
+                    ok = True
+    if ok:
+        rep.ok("Ace.ungroup_ports: single result", "returns [self]: identifier and note of an entry that needs no split are kept", where=where(up))
+    else:
+        rep.violation("Ace.ungroup_ports", "single result", "an entry that needs no splitting is not returned as the same object ([self]): its identifier and note change", where(up))
+
+
+def splice_rule(ctx: Ctx, rep: Report, q: str, rid: str = "R19.4") -> None:  # noqa: C901
+    rep.rule(rid)
+    f = ctx.func(q)
+    cfg = ctx.cfg(f)
+    loops = [n for n in cfg.live if n.kind == "for" and src(n.ast.iter) in ("self._items", "self.items")]
+    rep.instance()
+    if not loops:
+        rep.violation(q, "loop over self._items", "the splice loop vanished", where(f))
+        return
+    lp = loops[0]
+    var = src(lp.ast.target)
+    et = elem(ctx.types.attr_type(f.cls, "_items"))
+    static = classes_of(et)
+    acc_names: Set[str] = set()
+    for path in loop_body_paths(cfg, lp):
+        if path[-1][0] is cfg.raise_exit:
+            continue
+        atoms = [(n.ast, lab == "T") for n, lab in path if n.kind == "cond" and lab in ("T", "F")]
+        poss = possible_classes(ctx, static, atoms, var)
+        if poss is not None and not poss:
+            continue  # infeasible by the declared element type
+        places = []
+        for node, lab in path:
+            if node.kind == "stmt" and node.ast is not None:
+                places += element_placements(node.ast, var)
+        # `aces = x.ungroup_ports(); _items.extend(aces)`
+        env: Dict[str, ast.AST] = {}
+        for node, lab in path:
+            if node.kind == "stmt" and isinstance(node.ast, (ast.Assign, ast.AnnAssign)):
+                t = node.ast.targets[0] if isinstance(node.ast, ast.Assign) else node.ast.target
+                if isinstance(t, ast.Name) and node.ast.value is not None:
+                    env[t.id] = node.ast.value
+        for node, lab in path:
+            if node.kind == "stmt" and node.ast is not None:
+                for x in ast.walk(node.ast):
+                    if isinstance(x, ast.Call) and isinstance(x.func, ast.Attribute) and x.func.attr == "extend" and len(x.args) == 1 and isinstance(x.args[0], ast.Name):
+                        d = env.get(x.args[0].id)
+                        if d is not None and mentions(d, var) and not mentions(x.args[0], var):
+                            places.append(("replace", x))
+        for k, call in places:
+            if isinstance(call, ast.Call):
+                acc_names.add(src(call.func.value))
+        label = " & ".join(f"{snippet(t, 30)}={'T' if tr else 'F'}" for t, tr in atoms) or "unconditional"
+        rep.instance()
+        if len(places) == 1:
+            kind = places[0][0]
+            if kind == "replace":
+                d = None
+                rep.ok(f"{q}: path [{label}]", "the item is replaced by its split result at its position", where=where(f, lp.ast))
+            else:
+                rep.ok(f"{q}: path [{label}]", "the item is placed once", where=where(f, lp.ast))
+        else:
+            rep.violation(q, f"path [{label}] places the item {len(places)} times", "every item must be carried over exactly once (an ACE replaced by its split result); an item is lost or duplicated", where(f, lp.ast), path=[repr(n) for n, _ in path])
+    # stored back, same order
+    stores = [n for n in own_nodes(f.node) if isinstance(n, ast.Assign) and any(isinstance(t, ast.Attribute) and src(t.value) == "self" and t.attr in ("items", "_items") for t in n.targets)]
+    rep.instance()
+    if not stores:
+        rep.violation(q, "self.items = ...", "the spliced list is never stored", where(f))
+    else:
+        st = stores[-1]
+        state, why = order_of(ctx, f, st.value)
+        if state in ("ordered:self._items", "ordered:self.items") and src(st.value) in acc_names:
+            rep.ok(f"{q}: {snippet(st)}", "the spliced list, in the original order", where=where(f, st))
+        else:
+            rep.violation(q, snippet(st), f"the stored list is not the order-preserving splice ({state}; {why})", where(f, st))
+
+
+def r19_4b(ctx: Ctx, rep: Report) -> None:
+    """Acl.ungroup_ports descends into groups and re-groups."""
+    rep.rule("R19.4")
+    f = ctx.func("Acl.ungroup_ports")
+    cfg = ctx.cfg(f)
+    rep.instance()
+    descends = False
+    for n in cfg.live:
+        if n.kind == "stmt" and n.ast is not None:
+            for x in ast.walk(n.ast):
+                if isinstance(x, ast.Call) and isinstance(x.func, ast.Attribute) and x.func.attr == "ungroup_ports" and src(x.func.value) != "self":
+                    deps = cfg.control_deps(n)
+                    if any(c.kind == "cond" and "AceGroup" in src(c.ast) and lab == "T" for c, lab in deps):
+                        descends = True
+    if descends:
+        rep.ok("Acl.ungroup_ports: nested groups", "descends into each AceGroup before carrying it over", where=where(f))
+    else:
+        rep.violation("Acl.ungroup_ports", "nested groups", "multi-port entries inside groups are not split", where(f), inp="grouped ACL with 'eq 1 2' inside a block, platform -> nxos")
+    rep.instance()
+    gconds = [c for c in cfg.live if c.kind == "cond" and src(c.ast) in ("self._group_by", "self.group_by")]
+    regroup = False
+    for c in gconds:
+        t = [s for lab, s in c.succ if lab == "T"]
+        if t and any(isinstance(x, ast.Call) and isinstance(x.func, ast.Attribute) and x.func.attr == "group" for n in cfg.reachable(t[0], labels_avoid=("exc",)) if n.ast is not None and n.kind == "stmt" for x in ast.walk(n.ast)):
+            regroup = True
+    items_setter_regroups = False
+    st = ctx.func("Acl.items.setter")
+    for n in own_nodes(st.node):
+        if isinstance(n, ast.Call) and isinstance(n.func, ast.Attribute) and n.func.attr == "group":
+            items_setter_regroups = True
+    if regroup or items_setter_regroups:
+        rep.ok("Acl.ungroup_ports: grouping", "re-applied when group_by is set" + (" (also by the items setter)" if items_setter_regroups else ""), where=where(f))
+    else:
+        rep.violation("Acl.ungroup_ports", "grouping", "the block structure is not restored after the split", where(f))
+
+
+def split_before_convert(ctx: Ctx, rep: Report, rid: str = "R19.5") -> None:
+    rep.rule(rid)
+    f = ctx.func("Acl.platform.setter")
+    cfg = ctx.cfg(f)
+    rep.instance()
+    param = f.params[1]
+
+    def is_split(n: Node) -> bool:
+        if n.ast is None or n.kind != "stmt":
+            return False
+        return any(isinstance(x, ast.Call) and isinstance(x.func, ast.Attribute) and x.func.attr == "ungroup_ports" and src(x.func.value) == "self" for x in ast.walk(n.ast))
+
+    def is_convert(n: Node) -> bool:
+        if n.kind == "stmt" and isinstance(n.ast, ast.Assign):
+            for t in n.ast.targets:
+                if isinstance(t, ast.Attribute) and t.attr == "platform" and src(t.value) != "self":
+                    return True
+        return False
+
+    converts = [n for n in cfg.live if is_convert(n)]
+    splits = [n for n in cfg.live if is_split(n)]
+    if not converts:
+        rep.violation("Acl.platform.setter", "item conversion", "the items are never converted to the new platform", where(f))
+        return
+    if not splits:
+        rep.violation("Acl.platform.setter", "self.ungroup_ports()", "multi-port entries are not split before conversion to NX-OS (which accepts one port per entry)", where(f), inp="Acl('... permit tcp any eq 1 2 any').platform = 'nxos' -> ValueError")
+        return
+    sp = splits[0]
+    # the split is taken exactly under `<new platform> == "nxos"`
+    deps = cfg.control_deps(sp)
+    nx = [(c, lab) for c, lab in deps if c.kind == "cond" and isinstance(c.ast, ast.Compare) and any(isinstance(x, ast.Constant) and x.value == "nxos" for x in ast.walk(c.ast))]
+    ok_cond = any((isinstance(c.ast.ops[0], ast.Eq) and lab == "T") or (isinstance(c.ast.ops[0], ast.NotEq) and lab == "F") for c, lab in nx)
+    if not ok_cond:
+        rep.violation("Acl.platform.setter", snippet(sp.ast), "the split is not performed exactly when the new platform is nxos", where(f, sp.ast))
+    # on the nxos path the split precedes every conversion: cut the split node; conversions unreachable through the nxos edge
+    bad = False
+    for c, lab in nx:
+        tgt = [s for l2, s in c.succ if l2 == lab]
+        if tgt:
+            reach = cfg.reachable(tgt[0], avoid=is_split, labels_avoid=("exc",))
+            if any(cv in reach for cv in converts) and not is_split(tgt[0]):
+                bad = True
+    # and no conversion happens before the test at all
+    for cv in converts:
+        for c, lab in nx:
+            if c in cfg.reachable(cv, labels_avoid=("exc",)) and cv not in cfg.reachable(c, labels_avoid=("exc",)):
+                bad = True
+    if bad:
+        rep.violation("Acl.platform.setter", f"{snippet(converts[0].ast)} reachable before {snippet(sp.ast)}", "an item can be converted to NX-OS before multi-port entries were split: the port object rejects several ports", where(f, converts[0].ast), inp="Acl('ip access-list extended A\\n permit tcp any eq 1 2 any').platform = 'nxos'")
+    else:
+        rep.ok(f"Acl.platform.setter: {snippet(sp.ast)}", "dominates every item conversion on the nxos path; the loop reads the item list after the split", where=where(f, sp.ast))
+
+
+def run(ctx: Ctx, rep: Report, tier: str) -> None:
+    r19_1(ctx, rep)
+    r19_2(ctx, rep)
+    r19_3(ctx, rep)
+    splice_rule(ctx, rep, "AceGroup.ungroup_ports")
+    splice_rule(ctx, rep, "Acl.ungroup_ports")
+    r19_4b(ctx, rep)
+    split_before_convert(ctx, rep)
